@@ -1,8 +1,10 @@
 """W-meas: measurement-history phase bodies, validators and transforms (C06, C10).  Traced."""
 import math
+import threading
 
 import openhtf as htf
 from openhtf.core import measurements as ms
+from simkit import core
 from workloads import bodies
 
 
@@ -95,6 +97,23 @@ def make_meas_phase(ctx, spec, hooks):
   def measphase(state):
     test = state.test_api
     ctx.ev('body_start', 'measphase', 1)
+    chatter = None
+    if spec.get('chatter'):
+      # a helper thread of the phase that logs to the same test while the phase works
+      def chat():
+        for k in range(spec['chatter']):
+          test.logger.info('chatter line %d', k)
+          core.sim_sleep(0)
+      chatter = threading.Thread(target=chat, name='chatter')
+      chatter.daemon = True
+      chatter.start()
+    try:
+      return _measphase_ops(state, test)
+    finally:
+      if chatter is not None:
+        chatter.join()
+
+  def _measphase_ops(state, test):
     for i, op in enumerate(spec['ops']):
       kind = op[0]
       try:
